@@ -555,6 +555,8 @@ def check_pad_basic(ctx, P, rule_id):
                 m = args[0] if args else kw.get("pad_width")
                 md = args[1] if len(args) > 1 else kw.get("mode", "constant")
                 cv = kw.get("constant_values", "<none>")
+                if cv is None:
+                    cv = "<none>"  # xarray's default: the same as not passing the argument
                 own = {"pad_width", "mode", "stat_length", "constant_values", "end_values", "reflect_type", "keep_attrs"}
                 as_kw = {k: v for k, v in kw.items() if k not in own}
                 if m is None and as_kw:  # widths given as keyword arguments named after the dimensions
